@@ -51,7 +51,7 @@ def check_model(ctx, model, label, max_steps, slots=2, force_sets='small', **fla
     if not any(len(l) == 2 and [l[0]] in model.lists for l in model.lists):
         dead_ok |= {'AddChain'}
     if not flags.get('force', True):
-        dead_ok |= {'Force', 'ChainForce', 'Reset'}
+        dead_ok |= {'Force', 'ChainForce', 'Reset', 'MultiForceObj'}
     if not flags.get('restart', True):
         dead_ok |= {'Restart'}
     account(ctx, res, f'StoreAtomic/{label} exhaustive MaxSteps={max_steps} slots={slots}', dead_ok=dead_ok)
@@ -115,7 +115,7 @@ def describe(model, beh, upto=None):
             out.append(f"force(s{act['s']}.m{act['m']}.{act['n']}, delete={act['del']})")
         elif n == 'Reset':
             out.append(f"reset_data(s{act['s']}.m{act['m']}.{act['n']})")
-        elif n in ('ChainForce', 'MultiForce'):
+        elif n in ('ChainForce', 'MultiForce', 'MultiForceObj'):
             out.append(f"{n}(s{act['s']}.m{act['m']}, {sorted(act['T'])}, recompute={act['rec']}, delete={act['del']})")
         else:
             out.append(n)
